@@ -640,6 +640,22 @@ func runC13(c c13Case) []string {
 					}
 					before = atomic.LoadInt32(&rec.redials)
 				}
+				// another call of the session is awaiting its reply on the connection that is about to
+				// be replaced (its handler is held): it is in flight at the moment of the loss
+				var pend erpc.CallCmd
+				pendRid := fmt.Sprintf("wfpend%d-%d", ai, attempt)
+				pendRes := new(LibRes)
+				pendRelease := func() {}
+				if (ai+attempt)%2 == 0 {
+					pendEntered, rel := lib.Gate(pendRid)
+					pendRelease = rel
+					pend = sess.AsyncCall(route, &LibArg{Rid: pendRid, Act: "slow", Val: pendRid}, pendRes, make(chan erpc.CallCmd, 1), secureSetting...)
+					if !vt.WaitClosed(pendEntered) {
+						pendRelease()
+						failf("%s", vt.Hang("entry of the gated handler before a writer-first loss"))
+						break
+					}
+				}
 				atomic.StoreInt32(&mc.severed, 1)
 				rid := fmt.Sprintf("wf%d-%d", ai, attempt)
 				res := new(LibRes)
@@ -647,6 +663,20 @@ func runC13(c c13Case) []string {
 				if !vt.WaitClosed(cmd.Done()) {
 					failf("%s", vt.Hang("completion of a call whose write met the loss first"))
 					break
+				}
+				if pend != nil {
+					// the connection it waits on is gone for good once the session was re-established
+					if !vt.WaitClosed(pend.Done()) {
+						pendRelease()
+						failf("%s", vt.Hang("completion of a call that was awaiting its reply on the connection a writer-first redial replaced"))
+						break
+					}
+					pendRelease()
+					if pend.StatusOK() && pendRes.Val != pendRid {
+						failf("a call in flight at a writer-first loss completed OK with %+v", *pendRes)
+					} else if !pend.StatusOK() && !isConnErr(pend.Status()) {
+						failf("a call in flight at a writer-first loss completed with %v, want a connection error", pend.Status())
+					}
 				}
 				if cmd.StatusOK() && res.Val != rid {
 					failf("a call whose write met the loss first completed OK with %+v", *res)
